@@ -37,7 +37,7 @@ pub fn bytes_val(b: &[u8]) -> Value {
     Value::Array(b.iter().map(|x| json!(*x)).collect())
 }
 
-/// [start,len] of `s` inside `base`; empty -> [0,0]; not inside -> {"foreign":bytes}
+/// [start,len] of `s` inside `base`; empty -> [0,0]; not inside the caller's buffer -> [-1,len] (type-stable)
 pub fn rng(base: &[u8], s: &[u8]) -> Value {
     if s.is_empty() {
         return json!([0, 0]);
@@ -47,7 +47,7 @@ pub fn rng(base: &[u8], s: &[u8]) -> Value {
     if s0 >= b0 && s0 + s.len() <= b0 + base.len() {
         json!([s0 - b0, s.len()])
     } else {
-        json!({"foreign": bytes_val(&s[..s.len().min(64)])})
+        json!([-1, s.len()])
     }
 }
 
